@@ -42,6 +42,9 @@ TECMP::LinPayload::LinPayload()
 TECMP::LinPayload::LinPayload(const uint8_t* data, const size_t size)
     : Payload(TECMP::PayloadType::lin, data, size)
 {
+    // Not a LIN payload unless it holds the header and the data bytes the header announces
+    if (size < sizeof(Header) || size - sizeof(Header) < getHeader()->getDataLength())
+        setType(TECMP::PayloadType::invalid);
 }
 const uint8_t* TECMP::LinPayload::getData() const
 {
